@@ -167,7 +167,15 @@ def apply_mod(f, m):
 _via = [0]
 
 
-def build(spec, scratch):
+def build(spec, scratch, target=None):
+    if "self" in spec and target is not None:
+        # a field read from the very file that is appended to: its data are
+        # still unread in that file (commit b49d869)
+        got = cfdm.read(target)
+        f = got[spec["self"] % len(got)].copy()
+        for m in spec.get("mods", []):
+            apply_mod(f, m)
+        return f
     if "syn" in spec:
         f = build_syn(spec["syn"])
     else:
@@ -510,7 +518,7 @@ def run_case(case, scratch):
         step = {"k": k}
         out["steps"].append(step)
         try:
-            new = [build(sp, scratch) for sp in app]
+            new = [build(sp, scratch, target=path) for sp in app]
         except Exception as e:  # noqa
             step["outcome"] = "build-failed:" + type(e).__name__ + ":" + str(e)[:200]
             break
